@@ -149,5 +149,9 @@ def ip6 (host : Bytes) : Option IP6Info :=
       let loopback := if v4 then gs.getD 6 0 / 256 == 127 else gs == [0, 0, 0, 0, 0, 0, 0, 1]
       some { canon := canon, zone := zone.isSome, is4in6 := v4, loopback := loopback }
 
+/-- The library answers as the driver uses them: IDNA and the public-suffix list from the real libraries
+(parameters), IPv6 text from the model above. -/
+def std (idna etld : Bytes → Bool) : Ext := { idnaXn := idna, isETLD := etld, ip6 := ip6 }
+
 end Net
 end Cors
